@@ -613,6 +613,70 @@ fn c14_json(h: &RHistory, out: &mut Vec<Violation>) {
     if let Some((code, msg)) = diff("Cucumber JSON", &got, &want) {
         out.push(v(&format!("facts-{code}"), msg).attr("reporter", rep));
     }
+    // one feature object per feature that reported a step or hook result (a report generator shows
+    // every object of the array as a feature: more objects than features is something that did not happen)
+    let mut want_objs = Bag::new();
+    // (the document identifies a feature by uri + name: two features sharing both are one object by design)
+    let mut seen_features: std::collections::BTreeSet<(String, String)> = std::collections::BTreeSet::new();
+    for e in &h.input {
+        if matches!(e.k, K::StepPassed { .. } | K::StepSkipped { .. } | K::StepFailed { .. } | K::HookPassed(_) | K::HookFailed(..)) {
+            let key = (e.fpath.as_deref().map(|p| p.trim_start_matches('/')).unwrap_or_default().to_owned(), e.feature.clone().unwrap_or_default());
+            if seen_features.insert(key.clone()) {
+                add(&mut want_objs, format!("feature-object|{}|{}", key.0, key.1));
+            }
+        }
+    }
+    let mut got_objs = Bag::new();
+    for f in features {
+        let is_perr = f.get("elements").and_then(|x| x.as_array()).is_some_and(|els| {
+            !els.is_empty() && els.iter().all(|el| { let id = s(el, "id"); id.starts_with("failed-to-parse") || id.starts_with("failed-to-expand-examples") })
+        });
+        if !(s(f, "name").is_empty() && is_perr) {
+            add(&mut got_objs, format!("feature-object|{}|{}", s(f, "uri").trim_start_matches('/'), s(f, "name")));
+        }
+    }
+    if let Some((code, msg)) = diff("Cucumber JSON feature objects", &got_objs, &want_objs) {
+        out.push(v(&format!("feature-objects-{code}"), msg).attr("reporter", rep));
+    }
+    // likewise one element per (feature, scenario, line, kind): attempts of one scenario share theirs
+    let mut want_els = Bag::new();
+    let mut seen_els: std::collections::BTreeSet<String> = std::collections::BTreeSet::new();
+    for e in &h.input {
+        let ty = match &e.k {
+            K::StepPassed { bg } | K::StepSkipped { bg } | K::StepFailed { bg, .. } | K::StepStarted { bg } => {
+                if *bg { "background" } else { "scenario" }
+            }
+            K::HookPassed(_) | K::HookFailed(..) => "scenario",
+            _ => continue,
+        };
+        let key = format!(
+            "element|{}|{}|{}{}|{}|{ty}",
+            e.fpath.as_deref().map(|p| p.trim_start_matches('/')).unwrap_or_default(),
+            e.feature.clone().unwrap_or_default(),
+            e.rule.as_ref().map(|r| format!("{r} ")).unwrap_or_default(),
+            e.sc_name.clone().unwrap_or_default(),
+            e.sc_line
+        );
+        if seen_els.insert(key.clone()) {
+            add(&mut want_els, key);
+        }
+    }
+    let mut got_els = Bag::new();
+    for f in features {
+        for el in f.get("elements").and_then(|x| x.as_array()).map(Vec::as_slice).unwrap_or(&[]) {
+            let id = s(el, "id");
+            if s(f, "name").is_empty() && (id.starts_with("failed-to-parse") || id.starts_with("failed-to-expand-examples")) {
+                continue;
+            }
+            add(
+                &mut got_els,
+                format!("element|{}|{}|{}|{}|{}", s(f, "uri").trim_start_matches('/'), s(f, "name"), s(el, "name"), el.get("line").and_then(serde_json::Value::as_u64).unwrap_or(0), s(el, "type")),
+            );
+        }
+    }
+    if let Some((code, msg)) = diff("Cucumber JSON elements", &got_els, &want_els) {
+        out.push(v(&format!("elements-{code}"), msg).attr("reporter", rep));
+    }
 }
 
 /// `logtokNx` of a generated log message (the whole trimmed message if there is none).
